@@ -3,7 +3,15 @@ NOTES = ("Solver-based checking of the real code: CrossHair/z3 symbolic executio
          "and generated render code, z3 regex queries from the live patterns. Exit 0 held / 1 VIOLATION (replayed "
          "natively) / 2 inconclusive. See DESIGN.md.")
 NOT_APPLICABLE = {}
+G_NOTE = ('Programs (templates) are enumerated from a bounded grammar and compiled concretely by the real compiler; for each program the '
+          'generated render function + real run-time are executed symbolically (CrossHair/z3) against a documentation-derived reference '
+          'interpreter (vlib/refsem.py) over all bindings inside the stated bound. Trusted: CrossHair models, chsym plugin, the reference interpreter.')
 CLAIMS = {
+    'C01': dict(
+        engine='G', level='translation_validation', design_ref='DESIGN.md 4 C01',
+        technique='differential symbolic execution (CrossHair/z3): compiled render function vs reference interpreter, symbolic bindings, enumerated programs',
+        text='Per enumerated template the solver decides equality of output and call log with the reference semantics for all bindings in the bound.',
+        note=G_NOTE),
     'C03': dict(
         engine='X+Z', level='model_checking', design_ref='DESIGN.md 4 C03',
         technique='symbolic execution (CrossHair/z3) of iter_xml/match_tag/emitters on shape-enumerated character-symbolic strings; z3 regex inclusion from the live lexer pattern',
